@@ -343,7 +343,9 @@ theorem C02_duration_results (a b : Dur) (raw : RawOptions) (since : Bool) (t1 t
     dsimp only at h
     split at h
     · cases h; exact ha
-    · obtain ⟨dd, _, h⟩ := bind_eq_ok h
+    · split at h
+      · cases h
+      obtain ⟨dd, _, h⟩ := bind_eq_ok h
       obtain ⟨target, _, h⟩ := bind_eq_ok h
       obtain ⟨p1, _, h⟩ := bind_eq_ok h
       obtain ⟨p2, _, h⟩ := bind_eq_ok h
